@@ -109,6 +109,56 @@ func opHist(p []string) string {
 			dst2 := reflect.New(t)
 			e2, pn2 := safely(func() error { return refmt.UnmarshalAtlased(h.dopts(), data, dst2.Interface(), a.atl) })
 			fresh = resStr(dumpValue(dst2.Elem()), e2, pn2)
+		case "H":
+			// the helpers that take no atlas (cbor.Marshal, refmt.Marshal): whatever they keep between calls is an instance
+			// too; compared with a fresh Marshaller over the empty atlas
+			rv, err := buildValue(t, f[3])
+			if err != nil {
+				return "bad-op"
+			}
+			src := reflect.New(t)
+			src.Elem().Set(rv)
+			var hb []byte
+			e, pn := safely(func() error {
+				var e error
+				if h.format == "json" {
+					hb, e = refmt.Marshal(h.eopts(), src.Interface())
+				} else {
+					hb, e = cbor.Marshal(src.Interface())
+				}
+				return e
+			})
+			reused = resStr(hexOrDash(hb), e, pn)
+			fw := &histWriter{}
+			fw.reset(-1)
+			e2, pn2 := safely(func() error { return refmt.NewMarshallerAtlased(h.eopts(), fw, a.atl).Marshal(src.Interface()) })
+			fresh = resStr(hexOrDash(fw.buf.Bytes()), e2, pn2)
+		case "B":
+			// a call with a target Bind rejects (not a pointer) while the next item is already waiting in the stream;
+			// then the proper call: it must get that very item (the rejected call consumes nothing)
+			data, _ := parseHexOrDash(f[3])
+			if h.u[a.id] == nil {
+				h.ufeed[a.id] = &feedReader{}
+				h.u[a.id] = refmt.NewUnmarshallerAtlased(h.dopts(), h.ufeed[a.id], a.atl)
+			}
+			h.ufeed[a.id].buf.Write(data)
+			bad := reflect.New(t).Elem().Interface() // a value, not a pointer to one
+			if t.Kind() == reflect.Interface {
+				bad = 5
+			}
+			be, bpn := safely(func() error { return h.u[a.id].Unmarshal(bad) })
+			dst := reflect.New(t)
+			e, pn := safely(func() error { return h.u[a.id].Unmarshal(dst.Interface()) })
+			reused = resStr(dumpValue(dst.Elem()), e, pn)
+			if bpn {
+				reused = "panic"
+			} else if be == nil {
+				reused = "bad-target-accepted"
+			}
+			h.ufeed[a.id].buf.Reset()
+			dst2 := reflect.New(t)
+			e2, pn2 := safely(func() error { return refmt.UnmarshalAtlased(h.dopts(), data, dst2.Interface(), a.atl) })
+			fresh = resStr(dumpValue(dst2.Elem()), e2, pn2)
 		case "X":
 			// clone into a variable of ANOTHER type: the destination may reject in the middle of the source's stream
 			rv, err := buildValue(t, f[3])
